@@ -4,7 +4,7 @@ from common import *
 from sighash_common import *
 
 PID = "C03"
-TIES = ['tx_parts', 'tx_whole']   # source-tie files coq/Properties/Tie_<f>.v that belong to this property
+TIES = ['tx_parts', 'tx_whole', 'legacy_digest']   # source-tie files coq/Properties/Tie_<f>.v that belong to this property
 THEOREMS = ["C03_digest", "C03_single_refuses", "C03_ignores_scriptsigs"]
 TECHNIQUE = "Coq proof (refinement of the copy-blank-mutate-serialise model to Core's per-field SignatureHash serialiser) + extracted model/spec and Python-oracle correspondence, real P2PKH signatures under libsecp256k1"
 RULE = ("transactions of 1..8 inputs and 0..8 outputs with arbitrary outpoints/sequences/versions/locktimes and existing scriptSigs, every "
